@@ -212,15 +212,16 @@ deriving DecidableEq, Repr
 inductive CfgErr | size | initial | max | ceiling
 deriving DecidableEq, Repr
 
+/-- "zero means the default". -/
+def orDefault (v : Int) (d : Nat) : Int := if v = 0 then (d : Int) else v
+
 /-- `NewFailureCache` validation (durations in ns, may be negative). -/
 def newCfg (size : Int) (initial max : Int) : Except CfgErr Cfg :=
-  if size ≤ 0 then .error .size else
-  let i := if initial = 0 then (defaultInitial : Int) else initial
-  let m := if max = 0 then (defaultMax : Int) else max
-  if i < (second : Int) then .error .initial
-  else if m < i then .error .max
-  else if m > (ceiling : Int) then .error .ceiling
-  else .ok ⟨i.toNat, m.toNat⟩
+  if size ≤ 0 then .error .size
+  else if orDefault initial defaultInitial < (second : Int) then .error .initial
+  else if orDefault max defaultMax < orDefault initial defaultInitial then .error .max
+  else if orDefault max defaultMax > (ceiling : Int) then .error .ceiling
+  else .ok ⟨(orDefault initial defaultInitial).toNat, (orDefault max defaultMax).toNat⟩
 
 def Cfg.Valid (c : Cfg) : Prop := second ≤ c.initial ∧ c.initial ≤ c.max ∧ c.max ≤ ceiling
 
